@@ -28,28 +28,54 @@ HEADER = 'import ADModel\n'
 ALLOWED_AXIOMS = {'propext', 'Classical.choice', 'Quot.sound'}
 
 
+EQUIVS = [os.path.join(common.LEAN, 'ADGen', f) for f in
+          ('Equiv.lean', 'EquivHeapLevel.lean', 'EquivHeapAncestor.lean', 'EquivHeapDesc.lean', 'EquivHeapPrune.lean',
+           'EquivHeapHistory.lean')]
+
+
 def theorem_table():
-    """[(theorem name, first line, last line, set of fragment / constant names it mentions)] of Equiv.lean (1-based lines
-    relative to the text after its import lines)"""
-    src = open(EQUIV).read()
-    body = re.sub(r'^import .*\n', '', src, flags=re.M)
+    """[(theorem name relative to `GenEq`, first line, last line, set of fragment / constant names it mentions)] over the
+    equivalence files, concatenated in import order (1-based lines relative to the concatenated text without import lines
+    and `#print axioms` lines)"""
+    body = ''
+    for path in EQUIVS:
+        if not os.path.exists(path):
+            continue
+        src = open(path).read()
+        src = re.sub(r'^import .*\n', '', src, flags=re.M)
+        src = re.sub(r'^#print axioms .*\n?', '', src, flags=re.M)
+        body += src if src.endswith('\n') else src + '\n'
     lines = body.split('\n')
-    starts = [(i, re.match(r'(?:@\[[^\]]*\]\s*)?(theorem|def)\s+([A-Za-z_][\w.]*)', ln)) for i, ln in enumerate(lines)]
-    starts = [(i, m.group(1), m.group(2)) for i, m in starts if m]
+    stack = []
+    starts = []
+    for i, ln in enumerate(lines):
+        m = re.match(r'namespace\s+([\w.]+)', ln)
+        if m:
+            stack.append(m.group(1))
+            continue
+        m = re.match(r'end\s+([\w.]+)\s*$', ln)
+        if m and stack and stack[-1] == m.group(1):
+            stack.pop()
+            continue
+        m = re.match(r'(?:@\[[^\]]*\]\s*)?(?:private\s+|protected\s+)?(theorem|def|lemma|abbrev|inductive|structure)\s+([A-Za-z_][\w.\']*)', ln)
+        if m:
+            full = '.'.join(stack + [m.group(2)])
+            rel = full[len('GenEq.'):] if full.startswith('GenEq.') else '_root_.' + full
+            starts.append((i, 'theorem' if m.group(1) == 'lemma' else m.group(1), rel))
     out = []
     for k, (i, kind, name) in enumerate(starts):
         j = starts[k + 1][0] if k + 1 < len(starts) else len(lines)
         text = '\n'.join(lines[i:j])
-        frs = set(re.findall(r'Gen\.([A-Za-z_]\w*)', text))
+        frs = set(re.findall(r'(?<![A-Za-z])Gen\.([A-Za-z_]\w*)', text))
         out.append({'name': name, 'kind': kind, 'first': i + 1, 'last': j, 'frags': frs, 'text': text})
-    # a theorem that uses another theorem of this file depends on that one's fragments too
-    names = {t['name']: t for t in out}
+    # a theorem that uses another theorem / definition of these files depends on that one's fragments too
     changed = True
     while changed:
         changed = False
         for t in out:
-            for other in names.values():
-                if other is not t and re.search(r'\b%s\b' % re.escape(other['name']), t['text']) and not other['frags'] <= t['frags']:
+            for other in out:
+                if other is not t and not other['frags'] <= t['frags'] and \
+                        re.search(r'(?<![\w.])%s(?![\w\'])' % re.escape(other['name'].split('.')[-1]), t['text']):
                     t['frags'] |= other['frags']
                     changed = True
     return body, out
@@ -72,7 +98,7 @@ def theorems_for(pid):
     """theorems serving property `pid` (all theorems when pid is None)"""
     _, table = theorem_table()
     fp = frag_props()
-    return [t for t in table if t['kind'] == 'theorem' and (pid is None or any(pid in fp.get(f, ()) for f in t['frags']))]
+    return [t for t in table if t['kind'] == 'theorem' and (pid is None or any(pid in fp.get(f, fp.get(f.split('__')[0], ())) for f in t['frags']))]
 
 
 def obligations(pid, repo=None):
@@ -96,7 +122,7 @@ def obligations(pid, repo=None):
     body, table = theorem_table()
     # one scratch file: regenerated definitions + the proofs, compiled by `lake env lean`; results are cached by content
     scratch_src = 'import ADProofs\n' + text + '\n' + body + '\n' + \
-        ''.join('#print axioms GenEq.%s\n' % t['name'] for t in table if t['kind'] == 'theorem')
+        ''.join('#print axioms GenEq.%s\n' % t['name'] for t in table if t['kind'] == 'theorem' and not t['name'].startswith('_root_.'))
     key = hashlib.sha256(scratch_src.encode()).hexdigest()[:20]
     cdir = os.path.join(common.VERIF, '.work', 'gencache')
     os.makedirs(cdir, exist_ok=True)
